@@ -214,3 +214,38 @@ def build_thr(repo=None):
     shutil.rmtree(d, ignore_errors=True)
     os.rename(tmp, d)
     return exe
+
+
+def build_real(root, repo=None):
+    """Real-kernel replayer: the library compiled normally (no seam) + harness/real/realdrv.c, and the helper child vchild
+    (reports into <root>)."""
+    repo = repo or REPO
+    srcs = lib_sources(repo)
+    hdrs = glob.glob(os.path.join(repo, "reproc/src/*.h")) + glob.glob(os.path.join(repo, "reproc/include/reproc/*.h"))
+    hsrc = [os.path.join(HARNESS, "real/realdrv.c"), os.path.join(HARNESS, "real/vchild.c"), os.path.join(HARNESS, "json.c"), os.path.join(HARNESS, "json.h")]
+    key = tree_hash(srcs + hdrs + hsrc, "real" + root)
+    d = os.path.join(CACHE, key)
+    if not os.path.exists(os.path.join(d, "realdrv")):
+        tmp = d + ".tmp%d" % os.getpid()
+        shutil.rmtree(tmp, ignore_errors=True)
+        os.makedirs(tmp)
+        r = subprocess.run(["gcc", "-std=gnu99", "-O1", "-g", "-DNDEBUG", "-DREPROC_MULTITHREADED", "-w", "-I" + os.path.join(repo, "reproc/include"),
+                            "-I" + os.path.join(repo, "reproc/src"), "-I" + HARNESS, hsrc[0], hsrc[2]] + srcs + ["-lpthread", "-o", os.path.join(tmp, "realdrv")],
+                           capture_output=True, text=True)
+        r2 = subprocess.run(["gcc", "-O1", "-w", '-DDUMPDIR="%s"' % root, hsrc[1], "-o", os.path.join(tmp, "vchild")], capture_output=True, text=True)
+        if r.returncode or r2.returncode:
+            shutil.rmtree(tmp, ignore_errors=True)
+            raise Infra("real-kernel harness does not compile:\n" + r.stderr[-2000:] + r2.stderr[-1000:])
+        shutil.rmtree(d, ignore_errors=True)
+        os.rename(tmp, d)
+    return os.path.join(d, "realdrv"), os.path.join(d, "vchild")
+
+
+def make_real_root(root, vchild):
+    shutil.rmtree(root, ignore_errors=True)
+    for sub in ("w/sub", "sub", "d", "bin"):
+        os.makedirs(os.path.join(root, sub))
+    for p in ("bin/c", "w/c", "w/sub/c", "c", "sub/c"):
+        shutil.copy(vchild, os.path.join(root, p))
+    for f in ("t0", "t1", "t2", "o5", "o6", "o9", "o11", "o30", "o31", "o50", "o63"):
+        open(os.path.join(root, f), "w").close()
